@@ -69,6 +69,10 @@ pub fn compile_jit(
 ) -> fn(usize, *const *const c_char) -> usize {
     let mut flag_builder = settings::builder();
     flag_builder.set("use_colocated_libcalls", "false").unwrap();
+    // without this cranelift refuses (panics on) functions with `i128`/`u128` parameters or results
+    flag_builder
+        .set("enable_llvm_abi_extensions", "true")
+        .unwrap();
     flag_builder.set("is_pic", "false").unwrap();
     let isa_builder = cranelift_native::builder().unwrap_or_else(|msg| {
         panic!("host machine is not supported: {}", msg);
@@ -114,6 +118,10 @@ pub fn compile_obj(
 ) -> Result<Vec<u8>, write::Error> {
     let mut flag_builder = settings::builder();
     flag_builder.set("use_colocated_libcalls", "false").unwrap();
+    // without this cranelift refuses (panics on) functions with `i128`/`u128` parameters or results
+    flag_builder
+        .set("enable_llvm_abi_extensions", "true")
+        .unwrap();
     // if "is_pic=false" does not work on macos
     // i spent a LOT of time narrowing down a crash to that issue
     flag_builder.set("is_pic", "true").unwrap();
